@@ -102,3 +102,107 @@ def patch_unbound_generator_defaults(pk):
 
 def _bound_random(g):
     return g.random()
+
+
+# ---------------------------------------------------------------- multiprocessing.Pool stub
+class PoolStub:
+    """In-process model of multiprocessing.Pool with CPython's chunking rule and per-chunk copy semantics.
+
+    starmap/map: materialise the iterable, split into chunks of ceil(len / (4*P)) tasks, DEEP-COPY each chunk as a whole
+    (objects shared inside one chunk stay shared - pickle memo semantics - nothing is shared between chunks or with the
+    parent), run the chunks in order, return results in input order (results are copied back as well).
+    Any other attribute is a harness error, never a verdict."""
+
+    log = []
+
+    def __init__(self, processes=None, *a, **k):
+        import os
+        self.processes = processes or os.cpu_count() or 1
+        if self.processes < 1:
+            raise ValueError("Number of processes must be at least 1")
+
+    def __enter__(self):
+        return self
+
+    def __exit__(self, *exc):
+        return False
+
+    def _chunks(self, tasks, chunksize=None):
+        if chunksize is None:
+            chunksize, extra = divmod(len(tasks), self.processes * 4)
+            if extra:
+                chunksize += 1
+        if len(tasks) == 0:
+            chunksize = 0
+        return [tasks[i:i + chunksize] for i in range(0, len(tasks), max(1, chunksize))] if tasks else []
+
+    def _run(self, func, tasks, star, chunksize=None):
+        import copy
+        out = []
+        chunks = self._chunks(list(tasks), chunksize)
+        PoolStub.log.append({"processes": self.processes, "tasks": sum(len(c) for c in chunks), "chunks": [len(c) for c in chunks]})
+        for chunk in chunks:
+            f, local = copy.deepcopy((func, chunk))
+            res = [f(*t) if star else f(t) for t in local]
+            out.extend(copy.deepcopy(res))
+        return out
+
+    def starmap(self, func, iterable, chunksize=None):
+        return self._run(func, iterable, True, chunksize)
+
+    def map(self, func, iterable, chunksize=None):
+        return self._run(func, iterable, False, chunksize)
+
+    def imap(self, func, iterable, chunksize=1):
+        return iter(self._run(func, iterable, False, chunksize))
+
+    def apply(self, func, args=(), kwds=None):
+        import copy
+        f, a, k = copy.deepcopy((func, args, kwds or {}))
+        return copy.deepcopy(f(*a, **k))
+
+    class _Async:
+        def __init__(self, v):
+            self.v = v
+
+        def get(self, timeout=None):
+            return self.v
+
+        def wait(self, timeout=None):
+            pass
+
+        def ready(self):
+            return True
+
+        def successful(self):
+            return True
+
+    def starmap_async(self, func, iterable, chunksize=None, **k):
+        return PoolStub._Async(self.starmap(func, iterable, chunksize))
+
+    def map_async(self, func, iterable, chunksize=None, **k):
+        return PoolStub._Async(self.map(func, iterable, chunksize))
+
+    def apply_async(self, func, args=(), kwds=None, **k):
+        return PoolStub._Async(self.apply(func, args, kwds))
+
+    def close(self):
+        pass
+
+    def join(self):
+        pass
+
+    def terminate(self):
+        pass
+
+    def __getattr__(self, name):
+        from symx.values import HarnessError
+        raise HarnessError(f"multiprocessing.Pool stub: attribute {name!r} is not modelled")
+
+
+def install_pool_stub(pk):
+    PoolStub.log = []
+    for modname in ("gameplay", "evaluation"):
+        mod = getattr(pk, modname, None)
+        if mod is not None and hasattr(mod, "Pool"):
+            mod.Pool = PoolStub
